@@ -67,6 +67,11 @@ def simulate(case):
             if c.connection_state.value <= 3 or w.reader is None:
                 return
             for kind in arrivals.get(k, ()):  # scheduled traffic
+                if kind == "local":
+                    # the LOCAL application sends: outbound traffic says nothing about the peer being alive
+                    from asyncfix import FIXMessage
+                    w.send(FIXMessage("D", {11: f"l{k}", 55: "X"}))
+                    continue
                 if kind == "hb":
                     w.peer("0", None)
                 elif kind == "app":
@@ -285,6 +290,17 @@ def scripted_cases(quick):
                             cases.append(mk(arrivals=arr, answer=("right", 0)))
                             if not quick:
                                 cases.append(mk(arrivals=arr, answer=("right", hq)))
+                    # the local application keeps sending while the peer is silent / only answers TestRequests
+                    for per in sorted({max(1, hq // 2), max(1, hq - 1)}):
+                        hor = 12 * hq if hb < 30 else 5 * hq
+                        loc = {k: ["local"] for k in range(per, hor + 1, per)}
+                        cases.append(mk(arrivals=loc))
+                        cases.append(mk(arrivals=loc, answer=("right", 0)))
+                    # the peer's own TestRequest crosses ours; ours is answered late
+                    if hb >= 2:
+                        for at in sorted({hq + 2, hq + 4, hq + 6, hq + 8}):
+                            for d in sorted({hq, hq + hq // 2, 2 * hq - 4}):
+                                cases.append(mk(arrivals={at: ["tr"]}, answer=("right", d)))
                     # burst then silence
                     cases.append(mk(arrivals={1: ["app", "hb", "app"], 2: ["hb"]}))
                     # inbound test requests
